@@ -476,7 +476,7 @@ func (g *Gen) scalarExpr(sc scope) string {
 			if g.r.Chance(0.3) {
 				return "q." + pick(g.r, []string{"name", "Title", "Other", "title"})
 			}
-			return "p." + pick(g.r, []string{"Name", "Age", "Upper", "nick", "Tags", "PtrLen", "nope", "ID", "slug", "Base", "Slug"})
+			return "p." + pick(g.r, []string{"Name", "Age", "Upper", "nick", "Tags", "PtrLen", "nope", "ID", "slug", "Base", "Slug", "Fail"})
 		}
 		if g.r.Chance(0.5) { // a whole binding printed as it is
 			all := append(append(append([]string{"p", "d", "q"}, sc.maps...), sc.arrs...), sc.anys...)
